@@ -19,7 +19,7 @@ RULE = ("valid half: every encoding from the grammar (<=3 chunks of 1/2/10/16 by
         "must-reject(size-not-hex, no-crlf-after-data, ext-bad-byte) / incomplete. "
         "non-trivial = distinct (encoding, set of framing elements that a cut falls strictly inside) and distinct mutants "
         "that the reference puts in a must-reject class")
-BOUNDS = {"quick": "18360 encodings; <=2 cuts when <=64 bytes else 1 cut, + bytewise; 64 bases x all single-site mutations x all 1-cuts (2-cuts when <=40 bytes)",
+BOUNDS = {"quick": "18360 encodings; <=2 cuts when <=56 bytes else 1 cut, + bytewise; 64 bases x all single-site mutations x all 1-cuts (2-cuts when <=40 bytes)",
           "thorough": "18360 encodings; <=2 cuts all lengths, <=3 cuts when <=32 bytes, + bytewise; same mutation space with every 2-cut"}
 ASSUMPTIONS = [
     "the caller stops delivering once finishCallback has fired (HTTPChannel does); bytes of later deliveries count as extra",
@@ -305,7 +305,7 @@ def shards(tier, seed):
 
 def _maxcuts(n, tier):
     if tier == "quick":
-        return 2 if n <= 64 else 1
+        return 2 if n <= 56 else 1
     return 3 if n <= 32 else 2
 
 
